@@ -611,6 +611,11 @@ class Tt4Card(SimBase):
             self.bn ^= 1                            # rule D
             self.rx += list(cmd[1:])
             if pcb & 0x10:                          # chaining: acknowledge
+                if getattr(self, "wtx_in_cmd_chain", False):
+                    # ... after asking for more time first
+                    self.wtx_in_cmd_chain = False
+                    self.pending = "ack-chain"
+                    return self._send(self._wtx_request())
                 return self._send([0xA2 | self.bn])
             apdu, self.rx = self.rx, []
             k = len(self.executed)
@@ -647,7 +652,7 @@ class Tt4Card(SimBase):
                     # the card may ask for more time before any block
                     self.wtx_in_chain = False
                     self.pending = "next-piece"
-                    return self._send([0xF2, 0x01])
+                    return self._send(self._wtx_request())
                 return self._next_piece()
             raise nfc.clf.TimeoutError("unexpected R(ACK)")
         if pcb == 0xF2 and len(cmd) == 2 and self.pending is not None:
@@ -662,6 +667,8 @@ class Tt4Card(SimBase):
                 self.wtx_left -= 1
                 return self._send(self._wtx_request())
             rsp, self.pending = self.pending, None
+            if rsp == "ack-chain":
+                return self._send([0xA2 | self.bn])
             if rsp == "next-piece":
                 return self._next_piece()
             return self._start_response(rsp)
